@@ -337,6 +337,34 @@ func enumRaw(x *core.Ctx, maxBody int, fn func(c *rawCase) bool) {
 				return
 			}
 		}
+		// F7: every single byte of the body replaced (quick: by each of the
+		// 12 alphabet letters; thorough: by every value): content that is
+		// special to the decoder (ill-formed UTF-8, flag bytes, identifiers)
+		for pos := hdr; pos < len(v.B); pos++ {
+			orig := v.B[pos]
+			m := append([]byte{}, v.B...)
+			if x.Thorough() {
+				for val := 0; val < 256; val++ {
+					if byte(val) == orig {
+						continue
+					}
+					m[pos] = byte(val)
+					if !call("F7.byte-substituted", m, -1) {
+						return
+					}
+				}
+			} else {
+				for _, val := range f2Alphabet {
+					if val == orig {
+						continue
+					}
+					m[pos] = val
+					if !call("F7.byte-substituted", m, -1) {
+						return
+					}
+				}
+			}
+		}
 		// F5: cross-type decoding
 		for t := 0; t < 16; t++ {
 			if byte(t) == v.B[0]>>4 {
@@ -394,7 +422,9 @@ func lengthMutants(frame []byte, hdr int, f spec.Field) [][]byte {
 	default:
 		return nil
 	}
-	cands := []int64{int64(cur) - 2, int64(cur) - 1, int64(cur) + 1, int64(cur) + 2, 0, int64(max)}
+	cands := []int64{int64(cur) - 2, int64(cur) - 1, int64(cur) + 1, int64(cur) + 2, 0, 1, int64(max),
+		// values that are special to 8/15/16-bit or 7-bit-group arithmetic
+		0x7f, 0x80, 0xff, 0x100, 0x3fff, 0x4000, 0x7fff, 0x8000, int64(max) - 1, int64(max) - 2, int64(max) - 3, int64(max) - 4}
 	var out [][]byte
 	seen := map[int64]bool{int64(cur): true}
 	for _, c := range cands {
